@@ -289,6 +289,36 @@ var stagedCases = []staged{
 	{"0 30 2 * * *", "America/New_York", "2100-03-13T00:00:00-05:00", 3, "spring forward 2100-03-14"},
 	{"0 30 1 * * *", "America/New_York", "2100-11-06T00:00:00-04:00", 3, "fall back 2100-11-07: 01:30 twice"},
 	{"0 0 0 31 4 *", "UTC", "2030-01-01T00:00:00Z", 1, "never: the zero time"},
+	// one deterministic reproducer for every (zone, failure class) pair the unchanged tree exhibits (found by the
+	// sweep below at full density, VERIF_SEED=1..20 and a thorough run): every run hits each of them, so the set of
+	// KNOWN-FINDING lines does not depend on the seed
+	{"0 30 1 * * *", "Australia/Lord_Howe", "2010-10-03T01:30:00+10:30", 1, "known: zone-shift-not-multiple-of-1h:Australia/Lord_Howe:result-does-not-match:hour"},
+	{"0 * 0 * * *", "Australia/Lord_Howe", "2023-10-01T02:30:00+11:00", 1, "known: zone-shift-not-multiple-of-1h:Australia/Lord_Howe:skipped-earlier-match"},
+	{"0 0 23 * * 6", "Pacific/Apia", "2011-12-29T21:30:00-10:00", 1, "known: zone-skips-a-day:Pacific/Apia:hang"},
+	{"0 * 1 9 * *", "Africa/Cairo", "2010-09-09T22:59:00+02:00", 1, "known: zone-transition-at-midnight:Africa/Cairo:result-does-not-match:dom-dow"},
+	{"0 * * * 7 5", "Africa/Cairo", "2014-07-31T22:59:00+02:00", 1, "known: zone-transition-at-midnight:Africa/Cairo:result-does-not-match:month"},
+	{"0 * * * * 5", "Africa/Cairo", "2014-07-31T23:50:00+02:00", 1, "known: zone-transition-at-midnight:Africa/Cairo:skipped-earlier-match"},
+	{"0 * 1 1 * *", "America/Asuncion", "2011-10-01T22:59:00-04:00", 1, "known: zone-transition-at-midnight:America/Asuncion:result-does-not-match:dom-dow"},
+	{"0 * 1 * 9 *", "America/Asuncion", "2017-09-30T23:50:00-04:00", 1, "known: zone-transition-at-midnight:America/Asuncion:result-does-not-match:month"},
+	{"0 * * * 9 *", "America/Asuncion", "2017-10-01T01:29:59-03:00", 1, "known: zone-transition-at-midnight:America/Asuncion:skipped-earlier-match"},
+	{"0 * 1 13 * *", "America/Havana", "2010-03-13T21:30:00-05:00", 1, "known: zone-transition-at-midnight:America/Havana:result-does-not-match:dom-dow"},
+	{"0 * 1 * 3 *", "America/Havana", "2012-03-31T22:59:00-05:00", 1, "known: zone-transition-at-midnight:America/Havana:result-does-not-match:month"},
+	{"0 * * * 3 *", "America/Havana", "2012-04-01T01:00:00-04:00", 1, "known: zone-transition-at-midnight:America/Havana:skipped-earlier-match"},
+	{"0 * 1 1 * *", "America/Santiago", "2029-09-01T21:30:00-04:00", 1, "known: zone-transition-at-midnight:America/Santiago:result-does-not-match:dom-dow"},
+	{"0 * 1 15 * *", "America/Sao_Paulo", "2011-10-15T23:50:00-03:00", 1, "known: zone-transition-at-midnight:America/Sao_Paulo:result-does-not-match:dom-dow"},
+	{"0 * 1 26 * *", "Asia/Beirut", "2011-03-26T22:59:00+02:00", 1, "known: zone-transition-at-midnight:Asia/Beirut:result-does-not-match:dom-dow"},
+	{"0 * * * * 0", "Asia/Beirut", "2019-03-30T21:30:00+02:00", 1, "known: zone-transition-at-midnight:Asia/Beirut:skipped-earlier-match"},
+	{"0 * 1 21 * *", "Asia/Tehran", "2010-03-21T22:59:00+03:30", 1, "known: zone-transition-at-midnight:Asia/Tehran:result-does-not-match:dom-dow"},
+	{"0 * * * * 1", "Asia/Tehran", "2010-03-20T18:00:00+03:30", 1, "known: zone-transition-at-midnight:Asia/Tehran:skipped-earlier-match"},
+	{"0 * 1 25 * *", "Pacific/Apia", "2010-09-25T23:50:00-11:00", 1, "known: zone-transition-at-midnight:Pacific/Apia:result-does-not-match:dom-dow"},
+	{"0 1 * 7 * *", "America/St_Johns", "2010-11-05T18:01:00-02:30", 1, "known: zone-transition-not-on-the-hour:America/St_Johns:result-does-not-match:dom-dow"},
+	{"0 1 0 * * *", "America/St_Johns", "2010-03-13T21:31:00-03:30", 1, "known: zone-transition-not-on-the-hour:America/St_Johns:result-does-not-match:hour"},
+	{"0 * * 7 * *", "America/St_Johns", "2010-11-06T23:30:59-03:30", 1, "known: zone-transition-not-on-the-hour:America/St_Johns:result-not-after-t"},
+	{"0 * * 7 * *", "America/St_Johns", "2010-11-07T00:00:00-02:30", 1, "known: zone-transition-not-on-the-hour:America/St_Johns:skipped-earlier-match"},
+	{"0 45 2 * * *", "Pacific/Chatham", "2012-09-30T00:15:00+12:45", 1, "known: zone-transition-not-on-the-hour:Pacific/Chatham:result-does-not-match:hour"},
+	{"0 * 3 * * *", "Pacific/Chatham", "2011-04-03T02:45:00+12:45", 1, "known: zone-transition-not-on-the-hour:Pacific/Chatham:result-not-after-t"},
+	{"0 * 2 * * *", "Pacific/Chatham", "2010-04-04T03:35:00+13:45", 1, "known: zone-transition-not-on-the-hour:Pacific/Chatham:skipped-earlier-match"},
+	{"0 0 19 29 2 *", "America/Asuncion", "2021-09-30T19:17:14-04:00", 1, "known: zone-transition-at-midnight:America/Asuncion:zero-although-match-exists"},
 }
 
 // ---------- deterministic sweep around the transitions of a zone ----------
@@ -901,7 +931,7 @@ func TestCheck(t *testing.T) {
 	}
 	e.Set("traces_validated_against_impl", int64(len(all)))
 	e.Set("evaluations", int64(nextCalls+len(runs)+len(termRuns)))
-	e.Set("rule", "a run = one expression (AST drawn from the field grammar: every term form for every field, lists <= 3, names, ?, descriptors, @every; or one planted defect of each refusal class) x parser option set x TZ=/CRON_TZ= prefix or process-local zone x zone (fixed, whole-hour DST both hemispheres, midnight transitions, 30/45-minute offsets, 30-minute DST, skipped day) x start instant (within 3 h of a transition 2010-2035, calendar corners, random) carried in another Location, walked 1-20 Next steps; plus every single term of every field enumerated by TLC; each Parse and each Next call is one evaluation judged by TLC; non-trivial = a run with at least one Next call, or an enumerated term; distinct by expression text, zone and start instant")
+	e.Set("rule", "a run = one expression (AST drawn from the field grammar: every term form for every field, lists <= 3, names, ?, descriptors, @every; or one planted defect of each refusal class) x parser option set x TZ=/CRON_TZ= prefix or process-local zone x zone (fixed, whole-hour DST both hemispheres, midnight transitions, 30/45-minute offsets, 30-minute DST, skipped day) x start instant (within 3 h of a transition 2010-2035, calendar corners, random; 9% of the runs in 2096-2104 / 2196-2204 around the century years without 29 February) carried in another Location, walked 1-20 Next steps; plus staged cases (five-year horizon, century years, one reproducer per known (zone, failure class) pair), in the thorough tier a deterministic sweep of expressions aimed at the transitions of the zones with midnight / off-hour / 30-minute / day-skipping changes, and every single term of every field enumerated by TLC; each Parse and each Next call is one evaluation judged by TLC; non-trivial = a run with at least one Next call, or an enumerated term; distinct by expression text, zone and start instant")
 	rejected := map[*run]bool{}
 	calendarMismatch := 0
 	sort.Slice(rej, func(i, j int) bool { return rej[i].run.Text+rej[i].run.Zone < rej[j].run.Text+rej[j].run.Zone })
@@ -989,7 +1019,8 @@ func TestCheck(t *testing.T) {
 		"the duration syntax of '@every d' is time.ParseDuration's; the harness hands d (whole seconds) to the spec",
 		"expressions outside the documented grammar (e.g. '*-5', '+5', empty list items, '?' outside the day fields) are not generated; a schedule without TZ= prefix is read in the zone of the instant handed to Next (spec.go: 'treated as local to the time provided'; this is how cron.WithLocation takes effect)",
 		"either-day rule: a day field is 'restricted' when it has no star and excludes some value; for a star inside a list, '*/1' or a star-free full range both readings are accepted",
-		"'none within five years': a match within 1825 days must be returned; if the first match is later, it or the zero time is accepted")
+		"'none within five years': a match up to five calendar years after t (minus one day of slack for the zone offset) must be returned; if the first match is later, it or the zero time is accepted",
+		"instants are handed to TLC relative to 1 January of the run's epoch year (32-bit integers); the calendar arithmetic is absolute, so any century is judged (runs around 2096-2104 and 2196-2204 are generated)")
 }
 
 func selfTest(e *ev.Evidence) {
